@@ -98,6 +98,13 @@ def main():
     am = AnchorMonitor(getattr(mod, 'ANCHORS', []) +
                        getattr(mod, 'ANCHORS_OPTIONAL', []))
     am.start()
+    lc = None
+    if os.environ.get('VERIF_LINECOV'):
+        from vmon.monitors.linecov import LineCov
+        lc = LineCov(os.path.dirname(pfile), os.path.join(
+            os.environ['VERIF_LINECOV'], '%s_%s_%03d.json' % (prop, tier,
+                                                              shard)))
+        lc.start()
     t0 = time.time()
     # the units package prints debugging text from FundamentalUnits.__eq__ /
     # __str__: noise, not a property; captured and only counted.
@@ -109,6 +116,8 @@ def main():
     finally:
         sys.stdout = real_stdout
         am.stop()
+        if lc:
+            lc.stop()
     res = ctx.dump()
     res['anchors'] = am.report()
     res['wall'] = time.time() - t0
